@@ -82,6 +82,9 @@ let run_case (line : string) : string =
      expected observation is that the exact daemon never acts later than the dense one *)
   if line = "wd" then "WD ok" else
   if line = "sf" then "SF ok" else
+  (* "mf": further model-free families (tools/props/mfree.py); the projection says "MF ok" or
+     what it saw instead *)
+  if line = "mf" then "MF ok" else
   let t0, h = parse_history (split_on ' ' line) in
   string_of_trace (model_run t0 h)
 
@@ -92,6 +95,9 @@ let run_monitor (id : string) (case : string list) (result : string) : string =
   if case = [ "sf" ] then
     (if result = "SF ok" then "PASS"
      else "FAIL a stopped browse left cached records or kept querying: " ^ result) else
+  if case = [ "mf" ] then
+    (if result = "MF ok" then "PASS"
+     else "FAIL model-free family: " ^ result) else
   if case = [ "wd" ] then
     (if result = "WD ok" then "PASS"
      else "FAIL time-driven work without a timer, or spinning: " ^ result) else
